@@ -35,6 +35,8 @@ func init() {
 		Old: "if t == maxt && !value.IsStaleNaN(v) {", New: "if t == maxt {", Expect: "selectPoints"})
 	mutant(Mutant{Rule: "R-LOOKBACK", Name: "per-query-delta-ignored", File: "engine/engine.go",
 		Old: "exec, err := execution.New(lplan.Expr(), q, start, end, step, e.getLookbackDelta(opts))", New: "exec, err := execution.New(lplan.Expr(), q, start, end, step, e.lookbackDelta)", Expect: "NewRangeQuery"})
+	mutant(Mutant{Rule: "R-LOOKBACK", Name: "unset-per-query-delta-is-zero", File: "engine/engine.go",
+		Old: "if opts != nil && opts.LookbackDelta > 0 {", New: "if opts != nil {", Expect: "NewInstantQuery"})
 	mutant(Mutant{Rule: "R-SHARD", Name: "first-shard-skipped", File: "execution/execution.go",
 		Old: "for i := 0; i < numShards; i++ {\n\t\toperator := exchange.NewConcurrent(\n\t\t\tscan.NewVectorSelector(", New: "for i := 1; i < numShards; i++ {\n\t\toperator := exchange.NewConcurrent(\n\t\t\tscan.NewVectorSelector(", Expect: "newShardedVectorSelector"})
 	mutant(Mutant{Rule: "R-SHARD", Name: "no-minimum-shard", File: "execution/execution.go",
@@ -221,6 +223,18 @@ func fieldLoadsIn(p *core.Program, v ssa.Value, depth int, out map[string]bool, 
 		if n, f, _, ok := core.FieldRef(x); ok && n != nil {
 			out[n.Obj().Name()+"."+f] = true
 		}
+		// an ordered comparison of a field load with the constant 0
+		if bo, ok := x.(*ssa.BinOp); ok && (bo.Op == token.GTR || bo.Op == token.LEQ || bo.Op == token.LSS || bo.Op == token.GEQ) {
+			for _, pair := range [][2]ssa.Value{{bo.X, bo.Y}, {bo.Y, bo.X}} {
+				if c, ok := core.ConstInt(pair[1]); ok && c == 0 {
+					if l := core.Deref(pair[0]); l != nil {
+						if n, f, _, ok := core.FieldRef(l); ok && n != nil {
+							out["cmp0:"+n.Obj().Name()+"."+f] = true
+						}
+					}
+				}
+			}
+		}
 		if pr, ok := x.(*ssa.Parameter); ok {
 			out["param:"+pr.Name()] = true
 			if b, ok := bind[pr]; ok {
@@ -283,6 +297,8 @@ func ruleLookback(p *core.Program) []core.Obligation {
 			switch {
 			case !loads["QueryOpts.LookbackDelta"] || !loads["param:"+opts.Name()]:
 				obs = append(obs, core.Ob(rule, key, p.Pos(ins.Pos()), core.FuncName(fn), core.Violated, "the lookback delta handed to the plan does not depend on opts.LookbackDelta: a per-query lookback delta is ignored on the native path"))
+			case !loads["cmp0:QueryOpts.LookbackDelta"]:
+				obs = append(obs, core.Ob(rule, key, p.Pos(ins.Pos()), core.FuncName(fn), core.Violated, "opts.LookbackDelta is used without testing that it is positive: non-nil options that leave the lookback unset (zero) select with lookback 0 instead of the engine's delta"))
 			case !loads["compatibilityEngine.lookbackDelta"]:
 				obs = append(obs, core.Ob(rule, key, p.Pos(ins.Pos()), core.FuncName(fn), core.Violated, "the lookback delta handed to the plan does not depend on the engine-wide delta"))
 			default:
